@@ -66,6 +66,18 @@ pub fn core_corpora(thorough: bool, scale: usize) -> Vec<Corpus> {
             programs: gen::programs_f0(f0n, true),
             goals: gen::goals_f0(),
         },
+        // the four-atom propositional fragment is large: only in the full thorough corpus here
+        // (C10 adds it explicitly in both tiers, see `f0x_corpora`)
+        Corpus {
+            frag: "f0x",
+            programs: if thorough && scale == 0 { gen::programs_f0x(3, false) } else { vec![] },
+            goals: gen::goals_f0x(),
+        },
+        Corpus {
+            frag: "f0xco",
+            programs: if thorough && scale == 0 { gen::programs_f0x(3, true) } else { vec![] },
+            goals: gen::goals_f0x(),
+        },
         Corpus {
             frag: "f1a",
             programs: gen::programs_f1a(w1a, n1a, false),
@@ -81,6 +93,14 @@ pub fn core_corpora(thorough: bool, scale: usize) -> Vec<Corpus> {
             programs: gen::programs_f1b(w1b, n1b),
             goals: gen::goals_f1b(thorough),
         },
+    ]
+}
+
+/// The four-atom propositional fragments (history-sensitive checks use them in both tiers).
+pub fn f0x_corpora() -> Vec<Corpus> {
+    vec![
+        Corpus { frag: "f0x", programs: gen::programs_f0x(3, false), goals: gen::goals_f0x() },
+        Corpus { frag: "f0xco", programs: gen::programs_f0x(3, true), goals: gen::goals_f0x() },
     ]
 }
 
